@@ -3,12 +3,15 @@ Minimal self-contained model of the timestamp rule of HTLC creation versus genes
 (modules/htlc/keeper/htlc.go CreateHTLC / createHTLT, types/msgs.go ValidateBasic,
 types/htlc.go HTLC.Validate, types/genesis.go ValidateGenesis, genesis.go ExportGenesis).
 
+(The full genesis functions on the complete HTLC model are in the second half of this file, namespace
+`Irismod.HtlcGen`; this mini-model is kept for the history of finding F-gen-1, fixed by 1f718dc.)
 Only the fields the two rules look at are modelled: id, timestamp, expiration height,
 transfer flag (HTLT), open/closed. `htltTsOk now ts` stands for the HTLT-only check of the
 timestamp against the clock (`createHTLT`); a plain HTLC's timestamp is not checked at all
 (`GetHashLock` hashes the secret alone when the timestamp is 0). Core Lean only.
 -/
 import Irismod.Sdk.Map
+import Irismod.Model.Htlc
 
 namespace Irismod.HtlcGenesis
 open Irismod
@@ -56,20 +59,154 @@ def run (s : State) (ops : List Op) : State := ops.foldl apply s
 /-- `ExportGenesis`: the open contracts -/
 def exportGenesis (s : State) : List (String × Contract) := s.htlcs.filter (fun e => e.2.isOpen)
 
-/-- the rules of `HTLC.Validate` over the modelled fields -/
-def validateContract (c : Contract) : Bool :=
+/-- the rules of `HTLC.Validate` over the modelled fields BEFORE the repair 1f718dc (finding
+F-gen-1): the timestamp had to be non-zero for every contract -/
+def validateContractPre (c : Contract) : Bool :=
   decide (c.expirationHeight ≠ 0) && decide (c.timestamp ≠ 0)
 
-/-- `HTLC.Validate` with fixes/F-gen-1.diff: the timestamp rule only for HTLTs -/
+/-- `HTLC.Validate` as it is (since 1f718dc): the timestamp rule only for HTLTs -/
 def validateContractFixed (c : Contract) : Bool :=
   decide (c.expirationHeight ≠ 0) && (!c.transfer || decide (c.timestamp ≠ 0))
+
+abbrev validateContract := validateContractFixed
 
 /-- `ValidateGenesis`: no duplicate id, every contract open and valid -/
 def validateWith (vc : Contract → Bool) : List String → List (String × Contract) → Bool
   | _, [] => true
   | seen, (id, c) :: t => !seen.contains id && c.isOpen && vc c && validateWith vc (id :: seen) t
 
-def validateGenesis (g : List (String × Contract)) : Bool := validateWith validateContract [] g
+/-- `ValidateGenesis` before 1f718dc -/
+def validateGenesisPre (g : List (String × Contract)) : Bool := validateWith validateContractPre [] g
+/-- `ValidateGenesis` as it is -/
 def validateGenesisFixed (g : List (String × Contract)) : Bool := validateWith validateContractFixed [] g
+abbrev validateGenesis := validateGenesisFixed
 
 end Irismod.HtlcGenesis
+
+/-!
+## The genesis functions of the HTLC module on the full model state
+
+`modules/htlc/genesis.go` (`ExportGenesis`, `InitGenesis`), `types/genesis.go` (`ValidateGenesis`),
+`types/htlc.go` (`HTLC.Validate`, `AssetSupply.Validate`) on top of `Irismod.Htlc.State`, literally:
+
+* `ExportGenesis`: the parameters, the OPEN contracts (closed ones are dropped by design), all asset
+  supplies, and the previous block time (`DefaultPreviousBlockTime` — a process-start `time.Now()` —
+  when the key is absent: the parameter `defaultPrev`).
+* `ValidateGenesis`: `Params.Validate`; per contract: no duplicate id, state open, `HTLC.Validate`
+  (after 1f718dc: the timestamp rule only for HTLTs); per supply: no duplicate denom.
+  Not modelled (fixed by the line protocol): bech32 syntax of sender / recipient, the length bound of
+  the two other-chain addresses, `sdk.Coin.IsValid` of the four coins of a supply record (one denom and
+  natural amounts by construction of the model's `Supply`).
+* `InitGenesis` on a wiped module store: validation (panic), previous block time, parameters,
+  supplies, then per contract: plain → store + queue; HTLT → the asset of its coin must be listed and
+  active (panic otherwise: class F-gen-5), store + queue, amount added to the incoming / outgoing
+  tally; finally every stored supply is compared with the tallies and the asset's limit (panic on a
+  mismatch, on a missing asset — F-gen-5 — or on a limit below current / incoming / their sum /
+  outgoing — F-gen-5).  The bank, the height and the clock are not touched.
+Core Lean only.
+-/
+namespace Irismod.HtlcGen
+open Irismod Irismod.Sdk Irismod.Htlc
+
+structure Genesis where
+  params   : List Asset
+  htlcs    : List (Id × Contract)
+  supplies : List (Denom × Supply)
+  prevTime : Nat
+  deriving Repr, Inhabited
+
+def isOpen (c : Contract) : Bool := c.state == .open
+
+/-- `ExportGenesis` -/
+def exportGenesis (defaultPrev : Nat) (s : State) : Genesis :=
+  { params := s.params, htlcs := s.htlcs.filter (fun e => isOpen e.2), supplies := s.supplies,
+    prevTime := s.prevTime.getD defaultPrev }
+
+/-- `HTLC.Validate` over the modelled fields -/
+def validateContract (id : Id) (c : Contract) : Bool :=
+  hexOk64 id && hexOk64 c.hashLock && decide (c.expiration ≠ 0) &&
+  !(c.transfer && c.timestamp == 0) &&
+  !(c.transfer && c.amount.length != 1) && coinsValid c.amount &&
+  !(c.state == .completed && c.closedBlock == 0) &&
+  !(!c.transfer && c.direction != .none) &&
+  !(c.transfer && c.direction == .none) &&
+  !(c.state != .completed && c.secret != "") &&
+  !(c.state == .completed && c.secret.length != 64)
+
+/-- the contract loop of `ValidateGenesis` -/
+def validateHtlcs : List Id → List (Id × Contract) → Bool
+  | _, [] => true
+  | seen, (id, c) :: t =>
+    !seen.contains id && isOpen c && validateContract id c && validateHtlcs (id :: seen) t
+
+/-- the supply loop of `ValidateGenesis` -/
+def validateSupplies : List Denom → List (Denom × Supply) → Bool
+  | _, [] => true
+  | seen, (d, _) :: t => !seen.contains d && validateSupplies (d :: seen) t
+
+/-- `ValidateGenesis` -/
+def validateGenesis (g : Genesis) : Bool :=
+  paramsValid g.params && validateHtlcs [] g.htlcs && validateSupplies [] g.supplies
+
+/-- the `SetAssetSupply` loop -/
+def setSupplies (l : List (Denom × Supply)) : AMap Denom Supply :=
+  l.foldl (fun m e => AMap.set m e.1 e.2) []
+
+/-- the wiped module store after `SetPreviousBlockTime`, `SetParams` and the supply loop; bank,
+height and clock are the environment's -/
+def baseState (env : State) (g : Genesis) : State :=
+  { env with htlcs := [], queue := [], supplies := setSupplies g.supplies, params := g.params,
+             prevTime := some g.prevTime }
+
+/-- incoming / outgoing tallies (`sdk.Coins` sums, read with `AmountOf`) -/
+abbrev Tally := Coins × Coins
+
+/-- one iteration of the contract loop of `InitGenesis` -/
+def importHtlc (s : State) (acc : Tally) (id : Id) (c : Contract) : Except Err (State × Tally) :=
+  if c.state ≠ .open then .error (.panic "htlc has invalid status") else
+  if !c.transfer then .ok (record s id c, acc) else
+  match c.amount with
+  | [] => .error (.panic "index out of range")
+  | (d, _) :: _ =>
+    match findAsset s.params d with
+    | none => .error (.panic "asset not found")
+    | some a =>
+      if !a.active then .error (.panic "asset is currently inactive") else
+      match c.direction with
+      | .incoming => .ok (record s id c, (acc.1 ++ c.amount, acc.2))
+      | .outgoing => .ok (record s id c, (acc.1, acc.2 ++ c.amount))
+      | .none => .error (.panic "htlt has invalid direction")
+
+def importHtlcs (s : State) (acc : Tally) : List (Id × Contract) → Except Err (State × Tally)
+  | [] => .ok (s, acc)
+  | (id, c) :: t =>
+    match importHtlc s acc id c with
+    | .error e => .error e
+    | .ok r => importHtlcs r.1 r.2 t
+
+/-- the checks of one stored supply record at the end of `InitGenesis` -/
+def checkSupply (ps : List Asset) (acc : Tally) (d : Denom) (sup : Supply) : Bool :=
+  sup.incoming == coinAmt acc.1 d && sup.outgoing == coinAmt acc.2 d &&
+  match findAsset ps d with
+  | none => false
+  | some a =>
+    decide (sup.current ≤ a.limit) && decide (sup.incoming ≤ a.limit) &&
+    decide (sup.incoming + sup.current ≤ a.limit) && decide (sup.outgoing ≤ a.limit)
+
+/-- `InitGenesis` on a wiped module store (`env` supplies bank, height, clock) -/
+def importGenesis (env : State) (g : Genesis) : Except Err State :=
+  if !validateGenesis g then .error (.panic "invalid genesis") else
+  match importHtlcs (baseState env g) ([], []) g.htlcs with
+  | .error e => .error e
+  | .ok r =>
+    if r.1.supplies.all (fun e => checkSupply r.1.params r.2 e.1 e.2) then .ok r.1
+    else .error (.panic "asset supply check failed")
+
+/-- export, wipe, import: the state the chain restarts from (the exported state itself when the
+import panics: the chain could not start) -/
+def reimport (defaultPrev : Nat) (s : State) : State :=
+  match importGenesis s (exportGenesis defaultPrev s) with
+  | .ok s' => s'
+  | .error _ => s
+
+end Irismod.HtlcGen
